@@ -46,7 +46,9 @@ Bodies == <<
   [kind |-> "simple", lex |-> <<N("d"), B("="), O("{"), S("'k'"), O(":"), N("a"), B("**"), I("2"), O(",")>>, rest |-> <<S("'j'"), O(":"), O("("), N("a"), B("<<"), I("1"), O(")"), B("!="), I("0"), O("}")>>],
   [kind |-> "block",  lex |-> <<N("def"), N("g"), O("("), N("x"), O(":"), N("int"), O(")"), B("->"), N("int"), O(":")>>, rest |-> <<>>],
   [kind |-> "simple", lex |-> <<N("return"), N("x"), B("-"), I("1"), N("if"), N("x"), N("and"), N("not"), N("y"), N("else"), U, N("x")>>, rest |-> <<>>],
-  [kind |-> "simple", lex |-> <<N("e"), B("="), S("\"x\\\\\""), B("+"), S("'y\\''"), B("%"), N("a")>>, rest |-> <<>>]
+  [kind |-> "simple", lex |-> <<N("e"), B("="), S("\"x\\\\\""), B("+"), S("'y\\''"), B("%"), N("a")>>, rest |-> <<>>],
+  \* raw strings: a backslash still keeps the following quote inside the literal; an even run of backslashes does not
+  [kind |-> "simple", lex |-> <<N("w"), B("="), S("r\"x\\\"y\""), B("+"), S("r'[\\'\\\"]'"), B("+"), S("r\"\\\\\"")>>, rest |-> <<>>]
 >>
 
 VARIABLES prog,     \* sequence of [ind, body]
